@@ -8,6 +8,7 @@
 use rosu_pp::{
     any::HitResultPriority,
     mania::{ManiaGradualPerformance, ManiaPerformance, ManiaScoreState},
+    taiko::{Taiko, TaikoGradualPerformance, TaikoPerformance, TaikoScoreState},
     model::{hit_object::HitObjectKind, mode::GameMode},
     Beatmap, Difficulty,
 };
@@ -181,6 +182,127 @@ pub fn mania_case(run: &mut Run, id: &str, bytes: &[u8], i: &ManiaInputs, rng: &
     run.eval(Some(id));
 }
 
+pub struct TaikoInputs {
+    pub mods: u32,
+    pub rate: Option<f64>,
+    pub take: Option<u32>,
+    pub worst: bool,
+    pub acc: Option<f64>,
+    pub fields: [Option<u32>; 4],
+    pub gstate: [u32; 4],
+}
+
+fn taiko_difficulty(i: &TaikoInputs, with_take: bool) -> Difficulty {
+    let mut d = Difficulty::new().mods(i.mods);
+    if let Some(r) = i.rate {
+        d = d.clock_rate(r);
+    }
+    if with_take {
+        if let Some(t) = i.take {
+            d = d.passed_objects(t);
+        }
+    }
+    d
+}
+
+fn taiko_show(pre: &str, p: &rosu_pp::taiko::TaikoPerformanceAttributes) -> String {
+    format!(
+        "{pre}pp={} {pre}acc={} {pre}diff={} {pre}emc={} {pre}eur={} {pre}st={} {pre}msf={} {pre}mc={}",
+        showf(p.pp), showf(p.pp_acc), showf(p.pp_difficulty), showf(p.effective_miss_count),
+        p.estimated_unstable_rate.map_or_else(|| "none".to_owned(), showf),
+        showf(p.difficulty.stars), showf(p.difficulty.mono_stamina_factor), p.difficulty.max_combo
+    )
+}
+
+pub fn taiko_case(run: &mut Run, id: &str, bytes: &[u8], i: &TaikoInputs, rng: &mut Rng) {
+    let hexb: String = if bytes.is_empty() { "-".to_owned() } else { bytes.iter().map(|b| format!("{b:02x}")).collect() };
+    let repro = format!(
+        "mods={} rate={:?} take={:?} worst={} acc={:?} fields={:?} gstate={:?} bytes=<<{}>>",
+        i.mods, i.rate, i.take, i.worst, i.acc, i.fields, i.gstate, String::from_utf8_lossy(bytes)
+    );
+    run.repro.insert(id.to_owned(), repro.clone());
+    let mut hw = 0.0f64;
+    let (resp, gidx): (String, Vec<usize>) = match guarded(|| Beatmap::from_bytes(bytes)) {
+        Ok(Err(_)) => ("IOERR".to_owned(), vec![]),
+        Err(e) => {
+            run.fail("oracle:pipep-decode-panic", "", id, e, repro);
+            return;
+        }
+        Ok(Ok(map)) => {
+            if map.mode != GameMode::Taiko {
+                (format!("NOTTAIKO {}", map.mode as u8), vec![])
+            } else {
+                let Ok(Ok(da)) = guarded(|| taiko_difficulty(i, true).calculate_for_mode::<Taiko>(&map)) else {
+                    run.count("PIPEP-taiko: difficulty failed (not compared)");
+                    return;
+                };
+                hw = da.great_hit_window;
+                let prio = if i.worst { HitResultPriority::WorstCase } else { HitResultPriority::BestCase };
+                let build = |map: &Beatmap| {
+                    let mut p = TaikoPerformance::from(map.clone()).difficulty(taiko_difficulty(i, true)).hitresult_priority(prio);
+                    if let Some(a) = i.acc {
+                        p = p.accuracy(a);
+                    }
+                    let f = i.fields;
+                    if let Some(v) = f[0] { p = p.combo(v); }
+                    if let Some(v) = f[1] { p = p.n300(v); }
+                    if let Some(v) = f[2] { p = p.n100(v); }
+                    if let Some(v) = f[3] { p = p.misses(v); }
+                    p
+                };
+                let one = match guarded(|| build(&map).calculate()) {
+                    Ok(Ok(p)) => taiko_show("", &p),
+                    Ok(Err(_)) => "CONVERTERR".to_owned(),
+                    Err(_) => "GSPANIC".to_owned(),
+                };
+                let n_hits = da.max_combo as usize;
+                let mut gidx: Vec<usize> = Vec::new();
+                let mut g = String::new();
+                if i.take.is_none() && n_hits > 0 {
+                    gidx = vec![1, n_hits, 1 + rng.below(n_hits as u64) as usize];
+                    gidx.sort_unstable();
+                    gidx.dedup();
+                    let s = i.gstate;
+                    let state = TaikoScoreState { max_combo: s[0], n300: s[1], n100: s[2], misses: s[3] };
+                    for k in &gidx {
+                        let (m2, st, k2) = (map.clone(), state.clone(), *k);
+                        let d = taiko_difficulty(i, false);
+                        let v = guarded(move || TaikoGradualPerformance::new(d, &m2).ok().and_then(|mut gp| gp.nth(st, k2 - 1)));
+                        match v {
+                            Ok(Some(p)) => g.push_str(&format!(" {}", taiko_show(&format!("g{k}."), &p))),
+                            Ok(None) => g.push_str(&format!(" g{k}=none")),
+                            Err(_) => g.push_str(&format!(" g{k}.GSPANIC")),
+                        }
+                    }
+                }
+                run.count(&format!("PIPEP-taiko:hits:{}", match n_hits { 0 => "0", 1..=10 => "1-10", _ => ">10" }));
+                run.count(&format!("PIPEP-taiko:outcome:{}", one.split('=').next().unwrap_or("")));
+                (format!("{one}{g}"), gidx)
+            }
+        }
+    };
+    run.count("lines:PIPEP-taiko");
+    let f: Vec<String> = i.fields.iter().map(|x| opt(*x)).collect();
+    let gs: Vec<String> = i.gstate.iter().map(u32::to_string).collect();
+    run.line(
+        id,
+        format!(
+            "PIPEP taiko {hexb} {} {} {} {} {} {} {} {} {}",
+            i.mods,
+            i.rate.map_or("-".to_owned(), |r| hex(r.to_bits())),
+            opt(i.take),
+            hex(hw.to_bits()),
+            if i.worst { "W" } else { "B" },
+            i.acc.map_or("-".to_owned(), |a| format!("{:016x}", stored_acc(a).to_bits())),
+            f.join(" "),
+            if gidx.is_empty() { "-".to_owned() } else { gidx.iter().map(|k| k.to_string()).collect::<Vec<_>>().join(",") },
+            gs.join(",")
+        ),
+        resp,
+    );
+    run.eval(Some(id));
+}
+
 fn pick_count(rng: &mut Rng, n: u32) -> u32 {
     match rng.below(8) {
         0 => 0,
@@ -241,6 +363,55 @@ pub fn run(run: &mut Run, tier: &str, seed: u64, only: Option<&str>) {
                 gstate: [0; 6].map(|_| pick_count(&mut rng, n_lines / 3 + 1)),
             };
             mania_case(run, &format!("{id}#{v}"), &bytes, &inp, &mut rng);
+        }
+    }
+    // --- native taiko from file bytes
+    let mut tcases: Vec<(String, Vec<u8>)> = Vec::new();
+    for (i, b) in [&b""[..], b"[General]\nMode: 1\n", b"[General]\nMode:1\n[HitObjects]\n256,192,0,1,0\n256,192,200,1,8\n256,192,400,1,0\n256,192,600,1,2\n"].iter().enumerate() {
+        tcases.push((format!("pipep-taiko-tiny-{i}"), b.to_vec()));
+    }
+    let n_tgen = if thorough { 2000 } else { 260 };
+    for i in 0..n_tgen {
+        let n = *rng.pick(&[0usize, 1, 2, 3, 4, 6, 12, 30, 70]);
+        tcases.push((format!("pipep-taiko-gen-{i}"), crate::pipe::taiko_file(&mut rng, n)));
+    }
+    for (mode, text) in resource_maps() {
+        if mode == 1 {
+            for k in if thorough { vec![10usize, 80, 400] } else { vec![40usize, 150] } {
+                tcases.push((format!("pipep-taiko-res-first{k}"), crate::common::truncate_objects(&text, k).into_bytes()));
+            }
+        }
+    }
+    for (id, bytes) in tcases {
+        if only.is_some_and(|o| o != id && !o.starts_with(&format!("{id}#"))) {
+            continue;
+        }
+        let n_lines = bytes.iter().filter(|b| **b == b'\n').count() as u32;
+        for v in 0..(if thorough { 4 } else { 3 }) {
+            let mut fields = [None; 4];
+            for f in fields.iter_mut() {
+                if rng.chance(1, 3) {
+                    *f = Some(pick_count(&mut rng, n_lines));
+                }
+            }
+            let inp = TaikoInputs {
+                mods: *rng.pick(&[0u32, 2, 8, 1024, 8 + 1024, 64, 256, 64 + 2, 16, 128, 128 + 8]),
+                rate: if rng.chance(1, 4) { Some(*rng.pick(&[0.5, 0.75, 1.25, 1.5, 2.0])) } else { None },
+                take: match rng.below(4) {
+                    0 | 1 => None,
+                    2 => Some(rng.below(u64::from(n_lines) + 3) as u32),
+                    _ => Some(rng.below(4) as u32),
+                },
+                worst: rng.chance(1, 2),
+                acc: match rng.below(4) {
+                    0 => None,
+                    1 => Some(*rng.pick(&[0.0, 100.0, 50.0, 99.99, 250.0, -1.0])),
+                    _ => Some((rng.unit() * 10000.0).round() / 100.0),
+                },
+                fields,
+                gstate: [0; 4].map(|_| pick_count(&mut rng, n_lines / 2 + 1)),
+            };
+            taiko_case(run, &format!("{id}#{v}"), &bytes, &inp, &mut rng);
         }
     }
 }
